@@ -239,3 +239,217 @@ class Program:
         self._ws = ws
         self.ws_rounds = rounds
         return ws
+
+
+# ---------------------------------------------------------------------- G-EXC exception escape
+
+STD_EXC_BASES = {
+    "std::exception": [],
+    "std::runtime_error": ["std::exception"],
+    "std::logic_error": ["std::exception"],
+    "std::out_of_range": ["std::logic_error"],
+    "std::invalid_argument": ["std::logic_error"],
+    "std::length_error": ["std::logic_error"],
+    "std::domain_error": ["std::logic_error"],
+    "std::range_error": ["std::runtime_error"],
+    "std::overflow_error": ["std::runtime_error"],
+    "std::underflow_error": ["std::runtime_error"],
+    "std::system_error": ["std::runtime_error"],
+    "std::ios_base::failure": ["std::system_error"],
+    "std::bad_alloc": ["std::exception"],
+    "std::bad_cast": ["std::exception"],
+    "std::bad_optional_access": ["std::exception"],
+    "std::bad_function_call": ["std::exception"],
+    "std::bad_variant_access": ["std::exception"],
+}
+
+# external (libstdc++) calls modelled as throwing. allocation failure is out of scope (stated assumption).
+THROWING_EXTERNALS = [
+    (("std::vector", "std::array", "std::basic_string", "std::deque", "std::map", "std::unordered_map", "std::basic_string_view"), "at", "std::out_of_range"),
+    (("std::basic_string", "std::basic_string_view"), "substr", "std::out_of_range"),
+    (("std::basic_string",), "erase", "std::out_of_range"),
+    (("std::basic_string",), "insert", "std::out_of_range"),
+    (("std::basic_string",), "replace", "std::out_of_range"),
+    (("std::basic_string",), "compare", "std::out_of_range"),
+    (("std::optional",), "value", "std::bad_optional_access"),
+    (("std::function",), "operator()", "std::bad_function_call"),
+]
+THROWING_FREE = {
+    "std::stoi": ["std::invalid_argument", "std::out_of_range"],
+    "std::stol": ["std::invalid_argument", "std::out_of_range"],
+    "std::stoll": ["std::invalid_argument", "std::out_of_range"],
+    "std::stoul": ["std::invalid_argument", "std::out_of_range"],
+    "std::stoull": ["std::invalid_argument", "std::out_of_range"],
+    "std::stod": ["std::invalid_argument", "std::out_of_range"],
+}
+
+
+class ExcEngine:
+    def __init__(self, prog):
+        self.prog = prog
+        self.facts = prog.facts
+        self.mt = None      # func id -> {type: witness}; witness = (kind, loc, detail)
+
+    def norm_type(self, t):
+        if t is None:
+            return "?"
+        t = t.replace("[abi:cxx11]", "").strip()
+        t = t.replace("std::__cxx11::", "std::")
+        if t.startswith("std::ios_base::failure"):
+            return "std::ios_base::failure"
+        return t
+
+    def bases(self, t):
+        t = self.norm_type(t)
+        if t in STD_EXC_BASES:
+            return STD_EXC_BASES[t]
+        r = self.facts.records.get(t)
+        if r:
+            return [self.norm_type(b) for b in r.get("bases", [])]
+        return []
+
+    def catches(self, handler_ty, thrown):
+        if handler_ty == "...":
+            return True
+        h = self.norm_type(handler_ty)
+        seen = set()
+        st = [self.norm_type(thrown)]
+        while st:
+            x = st.pop()
+            if x == h:
+                return True
+            if x in seen:
+                continue
+            seen.add(x)
+            st.extend(self.bases(x))
+        return False
+
+    def external_throws(self, n):
+        out = []
+        callee = n.get("callee") or ""
+        name = n.get("n") or ""
+        rec = n.get("mrec") or ""
+        if callee in THROWING_FREE:
+            out.extend(THROWING_FREE[callee])
+        for recs, m, ty in THROWING_EXTERNALS:
+            if name == m and rec.startswith(recs):
+                out.append(ty)
+        return out
+
+    def _subtree(self, func, n, cur):
+        """may-throw set {type: witness} of the AST subtree n, using current function summaries `cur`."""
+        out = {}
+        if n is None:
+            return out
+        k = n.get("k")
+        if k == "try":
+            body = self._subtree(func, n["body"], cur)
+            remaining = dict(body)
+            for h in n["handlers"]:
+                caught = {t: w for t, w in remaining.items() if self.catches(h["ty"], t)}
+                for t in caught:
+                    remaining.pop(t)
+                hs = self._subtree(func, h["body"], cur)
+                if "<rethrow>" in hs:
+                    hs.pop("<rethrow>")
+                    for t, w in caught.items():
+                        hs.setdefault(t, w)
+                for t, w in hs.items():
+                    out.setdefault(t, w)
+            for t, w in remaining.items():
+                out.setdefault(t, w)
+            return out
+        if k == "throw":
+            if n.get("rethrow"):
+                out["<rethrow>"] = ("rethrow", func.loc(n), None)
+            else:
+                out[self.norm_type(n.get("ty"))] = ("throw", func.loc(n), func.name)
+        elif k == "lambda":
+            # body is a separate function; a lambda is assumed to be invoked where it is created
+            g = self.facts.funcs.get(n.get("fid"))
+            if g is not None:
+                for t, w in cur.get(g.id, {}).items():
+                    out.setdefault(t, ("call", func.loc(n), g.id))
+        elif k in ("call", "mcall", "opcall", "ctor"):
+            cid = n.get("cid")
+            targets = self.prog.resolve(cid) if cid else []
+            if targets:
+                for g in targets:
+                    for t, w in cur.get(g.id, {}).items():
+                        out.setdefault(t, ("call", func.loc(n), g.id))
+            else:
+                for ty in self.external_throws(n):
+                    out.setdefault(ty, ("libcall", func.loc(n), n.get("callee")))
+        from .facts import children
+        for c in children(n):
+            if c.get("k") == "lambda" and False:
+                continue
+            for t, w in self._subtree(func, c, cur).items():
+                out.setdefault(t, w)
+        return out
+
+    def compute(self):
+        if self.mt is not None:
+            return self.mt
+        cur = {fid: {} for fid in self.facts.funcs}
+        changed = True
+        rounds = 0
+        while changed:
+            changed = False
+            rounds += 1
+            for fid, f in self.facts.funcs.items():
+                new = {}
+                for r in f.all_roots():
+                    for t, w in self._subtree(f, r, cur).items():
+                        new.setdefault(t, w)
+                new.pop("<rethrow>", None)
+                if set(new) != set(cur[fid]):
+                    # keep first witnesses stable
+                    merged = dict(cur[fid])
+                    for t, w in new.items():
+                        merged.setdefault(t, w)
+                    for t in list(merged):
+                        if t not in new:
+                            merged.pop(t)
+                    cur[fid] = merged
+                    changed = True
+            if rounds > 50:
+                raise AnalysisBroken("exception-escape fixpoint did not converge")
+        self.mt = cur
+        self.rounds = rounds
+        return cur
+
+    def escaping(self, func, node=None):
+        """types that may escape func (or the subtree node of func), with witnesses"""
+        cur = self.compute()
+        if node is None:
+            return cur[func.id]
+        out = self._subtree(func, node, cur)
+        out.pop("<rethrow>", None)
+        return out
+
+    def chain(self, func, ty, limit=12):
+        """call chain from func to the throw site of type ty"""
+        cur = self.compute()
+        out = []
+        f = func
+        seen = set()
+        while f is not None and len(out) < limit:
+            w = cur.get(f.id, {}).get(ty)
+            if w is None:
+                break
+            kind, loc, detail = w
+            if kind == "call":
+                g = self.facts.funcs.get(detail)
+                out.append("%s calls %s at %s" % (f.name, g.name if g else detail, loc))
+                if detail in seen:
+                    break
+                seen.add(detail)
+                f = g
+            elif kind == "libcall":
+                out.append("%s calls %s at %s (may throw %s)" % (f.name, detail, loc, ty))
+                break
+            else:
+                out.append("%s throws %s at %s" % (f.name, ty, loc))
+                break
+        return out
